@@ -1135,9 +1135,32 @@ fn closure(f: &Forest, all_refs: bool, every_child: bool) -> BTreeSet<usize> {
     }
 }
 
-fn oracle(f: &Forest, filtered: &Conv, unfiltered: &Conv, fo: Option<&OutDwarf>, uo: Option<&OutDwarf>, kept: Option<&BTreeSet<usize>>) -> Option<String> {
+fn oracle(f: &Forest, split: bool, filtered: &Conv, unfiltered: &Conv, fo: Option<&OutDwarf>, uo: Option<&OutDwarf>, kept: Option<&BTreeSet<usize>>) -> Option<String> {
+    // a split conversion converts the first unit of the split section only: of the closure (which
+    // ranges over the whole section the filter walked) exactly the part inside that unit is expected
+    let restrict = |s: BTreeSet<usize>| -> BTreeSet<usize> { if split { s.into_iter().filter(|i| f.entries[*i].unit == 0).collect() } else { s } };
     match (filtered, unfiltered) {
-        (Conv::WriteErr(e), _) => return Some(format!("write-failed {e}")),
+        (Conv::WriteErr(e), _) => {
+            // recorded finding C19-4: a DIE of the converted split unit references (by section
+            // offset) a DIE of a later unit of the split section
+            fn info_tgt(op: &AOp) -> Option<usize> {
+                match op {
+                    AOp::CallRef(Tgt::Ent(i)) | AOp::ImplPtr(Tgt::Ent(i)) | AOp::VarVal(Tgt::Ent(i)) => Some(*i),
+                    AOp::Entry(i) => info_tgt(i),
+                    _ => None,
+                }
+            }
+            let foreign = split
+                && f.entries.iter().filter(|e| e.unit == 0).any(|e| {
+                    e.attrs.iter().any(|a| match a {
+                        AAttr::GRef(Tgt::Ent(i)) => f.entries[*i].unit != 0,
+                        AAttr::Expr(ops) => ops.iter().any(|o| info_tgt(o).map_or(false, |i| f.entries[i].unit != 0)),
+                        AAttr::Loc(l) => l.iter().any(|(_, ops)| ops.iter().any(|o| info_tgt(o).map_or(false, |i| f.entries[i].unit != 0))),
+                        _ => false,
+                    })
+                });
+            return Some(format!("{} {e}", if foreign { "write-failed-foreign-split-ref" } else { "write-failed" }));
+        }
         (Conv::FilterErr(e), Conv::Ok(_)) => return Some(format!("filter-fails {e}")),
         (Conv::ConvErr(e), Conv::Ok(_)) => {
             // name the cause: the behaviour of the repaired findings C19-3 (a root-DIE reference),
@@ -1156,8 +1179,8 @@ fn oracle(f: &Forest, filtered: &Conv, unfiltered: &Conv, fo: Option<&OutDwarf>,
             // the input itself cannot be converted (it has references to non-DIEs): the reserved
             // set is still observable and must respect the closure bounds
             if let Some(k) = kept {
-                let lower = closure(f, false, false);
-                let upper = closure(f, true, true);
+                let lower = restrict(closure(f, false, false));
+                let upper = restrict(closure(f, true, true));
                 if let Some(m) = lower.iter().find(|i| !k.contains(i)) {
                     return Some(format!("missing-closure e{m}"));
                 }
@@ -1172,8 +1195,8 @@ fn oracle(f: &Forest, filtered: &Conv, unfiltered: &Conv, fo: Option<&OutDwarf>,
     let (Some(fo), Conv::Ok(_)) = (fo, filtered) else { return None };
     let present: BTreeSet<usize> = fo.units.iter().flatten().filter_map(|e| e.label.strip_prefix('e').and_then(|x| x.parse().ok())).collect();
     // closure bounds are meaningful whenever the filtered conversion succeeded
-    let lower = closure(f, true, false);
-    let upper = closure(f, true, true);
+    let lower = restrict(closure(f, true, false));
+    let upper = restrict(closure(f, true, true));
     if let Some(m) = lower.iter().find(|i| !present.contains(i)) {
         return Some(format!("missing-closure e{m}"));
     }
@@ -1220,7 +1243,7 @@ pub fn handle(op: &str, a: &[&str]) -> Option<String> {
     }
     let split = op == "flt-split";
     let f = parse(a)?;
-    if split && f.nunits != 1 {
+    if split && (f.nunits == 0 || a.len() != 7) {
         return None;
     }
     let input = match build_input(&f) {
@@ -1271,7 +1294,7 @@ pub fn handle(op: &str, a: &[&str]) -> Option<String> {
     };
     let o = match (&filtered, &fo) {
         (Conv::Ok(_), Some(Err(e))) => Some(format!("readback-fails {e}")),
-        _ => oracle(&f, &filtered, &unfiltered, fo_ok, uo.as_ref(), kept.as_ref()),
+        _ => oracle(&f, split, &filtered, &unfiltered, fo_ok, uo.as_ref(), kept.as_ref()),
     };
     Some(match o {
         Some(w) => format!("{reply} #oracle:{w}"),
@@ -1299,6 +1322,9 @@ struct Style {
     /// implicit_pointer, variable_value, entry_value nesting, skipped location-list entries with
     /// references, unit roots that reference DIEs — are generated in every stream now)
     finding_kinds: bool,
+    /// split sections: the first unit does not reference DIEs of later units by section offset
+    /// (such a reference is recorded finding C19-4); later units still reference the first
+    split_clean: bool,
 }
 
 fn tgt_str(t: Tgt) -> String {
@@ -1382,7 +1408,7 @@ fn gen_forest(rng: &mut Rng, n: usize, nunits: usize, st: Style) -> Vec<GEntry> 
                     _ => Tgt::Mid(if same { *rng.pick(&mine) } else { rng.below(n as u64) as usize }),
                 };
             }
-            if same { Tgt::Ent(*rng.pick(&mine)) } else if rng.chance(1, 2) { Tgt::Ent(rng.below(n as u64) as usize) } else { Tgt::Ent(*rng.pick(&mine)) }
+            if same || (st.split_clean && u == 0) { Tgt::Ent(*rng.pick(&mine)) } else if rng.chance(1, 2) { Tgt::Ent(rng.below(n as u64) as usize) } else { Tgt::Ent(*rng.pick(&mine)) }
         };
         let gen_op = |rng: &mut Rng, nested: bool| -> String {
             let k = rng.below(12);
@@ -1517,7 +1543,7 @@ fn rand_enc(rng: &mut Rng) -> (u16, u8, u8) {
 
 pub fn gen(ctx: &Ctx, emit: &mut dyn FnMut(String)) {
     let mut rng = ctx.rng(19);
-    let plain = Style { invalid: false, finding_kinds: false };
+    let plain = Style { invalid: false, finding_kinds: false, split_clean: false };
     // 1. the back-edge rule, tag by tag: a required parent of every category with one child of
     //    every tag (with and without DW_AT_declaration), and the child required instead
     for &pt in &[SUBPROGRAM, 0x13, NAMESPACE, 0x0b, 0x11, 0x1e] {
@@ -1541,17 +1567,20 @@ pub fn gen(ctx: &Ctx, emit: &mut dyn FnMut(String)) {
         let n = rng.range(2, if ctx.tier == Tier::Quick { 6 } else { 8 }) as usize;
         let nunits = rng.range(1, 3) as usize;
         let st = match i % 10 {
-            8 => Style { invalid: true, finding_kinds: false },
-            9 => Style { invalid: false, finding_kinds: true },
+            8 => Style { invalid: true, finding_kinds: false, split_clean: false },
+            9 => Style { invalid: false, finding_kinds: true, split_clean: false },
             _ => plain,
         };
+        // split sections with 1-3 units (i % 3 == 0); two thirds of them without section-offset
+        // references from the first unit into later ones
+        let st = if i % 3 == 0 && i % 9 != 0 { Style { split_clean: true, ..st } } else { st };
         let es = gen_forest(&mut rng, n, nunits, st);
         let enc = rand_enc(&mut rng);
         for m in 0u32..(1 << es.len()) {
             let req: Vec<usize> = (0..es.len()).filter(|b| m >> b & 1 == 1).collect();
             let l = forest_line(enc, nunits, &es, &req);
-            // split-unit filters: the same single-unit forests through new_split / convert_split_with_filter
-            if nunits == 1 && i % 3 == 0 {
+            // split-unit filters: new_split / convert_split_with_filter vs convert_split
+            if i % 3 == 0 {
                 emit(l.replacen("flt-conv", "flt-split", 1));
             } else {
                 emit(l);
@@ -1564,10 +1593,12 @@ pub fn gen(ctx: &Ctx, emit: &mut dyn FnMut(String)) {
         let n = rng.range(4, 40) as usize;
         let nunits = rng.range(1, 5) as usize;
         let st = match i % 10 {
-            7 | 8 => Style { invalid: true, finding_kinds: false },
-            9 => Style { invalid: rng.chance(1, 3), finding_kinds: true },
+            7 | 8 => Style { invalid: true, finding_kinds: false, split_clean: false },
+            9 => Style { invalid: rng.chance(1, 3), finding_kinds: true, split_clean: false },
             _ => plain,
         };
+        let split = nunits <= 3 && i % 3 == 0 && i % 4 != 1;
+        let st = if split && i % 9 != 0 { Style { split_clean: true, ..st } } else { st };
         let es = gen_forest(&mut rng, n, nunits, st);
         let roots = if i % 4 == 1 { gen_roots(&mut rng, nunits, &es, true) } else { "-".into() };
         for _ in 0..3 {
@@ -1577,7 +1608,7 @@ pub fn gen(ctx: &Ctx, emit: &mut dyn FnMut(String)) {
             let l = forest_line(enc, nunits, &es, &req);
             if roots != "-" {
                 emit(format!("{l} {roots}"));
-            } else if nunits == 1 && i % 2 == 0 {
+            } else if split {
                 emit(l.replacen("flt-conv", "flt-split", 1));
             } else {
                 emit(l);
